@@ -327,6 +327,8 @@ class QuiltWorld(WorldBase):
                             ('q_headtail', 1), ('q_whole', 2), ('bus_access', 5), ('new_quilt', 1), ('q_hloc', 3 if self.retain else 0),
                             ('q_export', 0.6)])
         op = {'op': what, 'q': qi}
+        if what == 'new_quilt':
+            op['how'] = ch.choice(['ctor', 'ctor', 'rename'])
         if what == 'q_attr':
             op['what'] = ch.choice(['shape', 'size', 'ndim', 'index', 'columns', 'keys', 'contains', 'status', 'repr', 'len_iter', 'nbytes', 'get', 'axis_classes', 'len'])
             op['j'] = ch.randint(0, max(0, nc - 1))
@@ -383,6 +385,14 @@ class QuiltWorld(WorldBase):
         if op['op'] == 'new_quilt':
             if len(self.quilts) >= 3:
                 return 'skip'
+            if op.get('how') == 'rename' and self.quilts:
+                # a Quilt derived from another one (handed its axis map): a fresh object whose first use may be anything
+                q0, bus0 = self.quilts[op.get('q', 0) % len(self.quilts)]
+                st, q1 = call(lambda: q0.rename('renamed'))
+                if st == 'raise':
+                    raise Violation('C19.quilt', 'Quilt.rename', self._cls(), f'raised {type(q1).__name__}: {q1}')
+                self.quilts.append((q1, bus0))
+                return 'ok'
             self._new_quilt(self.bus, op.get('deepcopy', False), 'Quilt.__init__')
             return 'ok'
         qi = op.get('q', 0)
